@@ -150,6 +150,13 @@ class ProbeNode(BaseNode):
         self.idx = idx
         self.trace = trace
         self.hash_recv = hash_recv
+        self.delay_override = None  # {input name: delay} -> returned by init_delays (C10: "through init_delays/params")
+
+    def init_delays(self, rng=None, graph_state=None):
+        delays = super().init_delays(rng, graph_state)
+        if self.delay_override:
+            delays.update(self.delay_override)
+        return delays
 
     def init_params(self, rng=None, graph_state=None):
         return PParams(srcs={name: jnp.int32(c.output_node.idx) for name, c in self.inputs.items()})
